@@ -22,9 +22,11 @@ def registry():
         if not fn.startswith("registry"):
             continue
         txt = open(os.path.join(HARNESS_SRC, "src", fn)).read()
-        for m in re.finditer(r'^\s*h\(\s*(\w+)\s*,\s*(\d+)\s*,\s*([\w:]+)\s*,\s*"(\w+)"\s*,\s*"([^"]*)"\s*,\s*"([^"]*)"\s*,\s*"([^"]*)"\s*\);', txt, re.M):
+        mm = re.search(r"harnesses!\s*\{\s*(\w+)\s*,\s*(\w+)\s*;", txt)
+        module = mm.group(1) if mm else "proofs"
+        for m in re.finditer(r'^\s*h\(\s*(\w+)\s*,\s*(\d+)\s*,\s*([\w:<>, _]+?)\s*,\s*"(\w+)"\s*,\s*"([^"]*)"\s*,\s*"([^"]*)"\s*,\s*"([^"]*)"\s*\);', txt, re.M):
             reg[m.group(1)] = {
-                "name": m.group(1), "unwind": int(m.group(2)), "body": m.group(3), "complete": m.group(4) == "complete",
+                "name": m.group(1), "module": module, "unwind": int(m.group(2)), "body": m.group(3), "complete": m.group(4) == "complete",
                 "props": [p.strip() for p in m.group(5).split(",") if p.strip()],
                 "functions": [f.strip() for f in m.group(6).split(";") if f.strip()], "bound": m.group(7)}
     return reg
@@ -74,7 +76,7 @@ def run_kani(names, repo, workdir, timeout_per=600, extra=None, jobs=None):
     cmd = ["cargo", "kani", "-Z", "stubbing", "-Z", "unstable-options", "--output-format", "terse",
            "--export-json", out_json, "--harness-timeout", "%ds" % timeout_per, "-j", str(jobs or JOBS), "--exact"]
     for n in names:
-        cmd += ["--harness", "proofs::" + n]
+        cmd += ["--harness", registry()[n]["module"] + "::" + n]
     if extra:
         cmd += extra
     e = env()
@@ -128,13 +130,13 @@ def run_harnesses(groups, repo, workdir, tier="quick", seed=0):
         res["undecided"].append("mandatory stubs not reported applied")
     results = {x["harness_id"].split("::")[-1]: x for x in data.get("verification_results", {}).get("results", [])}
     details = {x["harness_id"].split("::")[-1]: x["property_details"] for x in data.get("property_details", [])}
-    stats = {x["harness_id"].split("::")[-1]: x.get("cbmc_stats", {}) for x in data.get("cbmc", [])}
+    stats = {x["harness_id"].split("::")[-1]: (x.get("cbmc_stats") or {}) for x in data.get("cbmc", [])}
     for n in names:
         h = reg[n]
         for fn in h["functions"]:
             res["functions"].append({"engine": "kani", "harness": n, "item": fn,
                                      "complete": h["complete"], "bound": h["bound"]})
-        st = stats.get(n, {})
+        st = stats.get(n) or {}
         res["solver_s"] += float(st.get("runtime_solver_s", 0) or 0) + float(st.get("runtime_symex_s", 0) or 0)
         ob = {"name": "kani::" + n, "engine": "kani/cbmc", "complete": h["complete"], "bound": h["bound"], "harness": n}
         if n not in results:
@@ -178,21 +180,23 @@ def run_harnesses(groups, repo, workdir, tier="quick", seed=0):
                                                        c.get("location", {}).get("line", "?"), c.get("function", "?")) for c in others[:4])
         ob["failed_checks"] = [c.get("description", "") for c in others]
         ob["verifier_output"] = json.dumps(others[:8], indent=1)
-        # counterexample + replay on the real code
-        cx = find_counterexample(n, repo, os.path.join(workdir, "cx_" + n))
-        if cx:
-            ob["counterexample"] = cx["counterexample"]
-            ob["replayed"] = cx["replayed"]
-            ob["replay_result"] = cx["replay_result"]
-            if cx["replayed"] and not cx["replay_result"].get("reproduced"):
-                # Kani found a failing check which the native run does not show as a panic:
-                # memory-safety / UB checks have no native symptom; assertion failures must replay.
-                only_assert = all(c.get("category") == "assertion" or "assertion failed" in c.get("description", "") for c in others)
-                if only_assert:
-                    ob["status"] = "undecided"
-                    res["undecided"].append("harness %s: counterexample did not replay on the real code" % n)
+        ob["assert_only"] = all(c.get("category") == "assertion" or "assertion failed" in c.get("description", "") for c in others)
         res["obligations"].append(ob)
     return res
+
+
+def attach_counterexample(ob, repo, workdir):
+    """Counterexample + replay on the real code for a failed Kani obligation. Returns False when an
+    assertion-only failure does not replay natively (then the result is undecided, not a violation)."""
+    cx = find_counterexample(ob["harness"], repo, os.path.join(workdir, "cx_" + ob["harness"]))
+    if not cx:
+        return True
+    ob["counterexample"] = cx["counterexample"]
+    ob["replayed"] = cx["replayed"]
+    ob["replay_result"] = cx["replay_result"]
+    if cx["replayed"] and not cx["replay_result"].get("reproduced") and ob.get("assert_only"):
+        return False
+    return True
 
 
 def parse_concrete_vals(out):
